@@ -24,6 +24,7 @@ every generated case instead; Keccak-256 is not specified in Lean beyond the exe
 import DosModel.Proofs.Bls
 import DosModel.Proofs.Bn256ConcMont
 import DosModel.Proofs.Bn256ConcRedc
+import DosModel.Proofs.Bn256ConcCurve
 import DosModel.Proofs.CodecChar
 import DosModel.Gen.BlsFacts
 import DosModel.Gen.CodecFacts
@@ -201,6 +202,18 @@ theorem coordinate_splitters_invert (xm ym a b c d : Nat)
     simp only [List.drop_succ_cons, List.drop_zero]
     simp only [List.map_cons, List.map_nil, List.flatten_cons, List.flatten_nil, List.append_nil] at w1 w2 w3 w4 ⊢
     simp [w1, w2, w3, w4]
+
+/-- on the concrete affine model (`Bls.evalOps`): **every signature `Sign` emits, for every secret
+key and every message, is the 64-byte canonical encoding of a point on y² = x³ + 3 with coordinates
+below p** (or 64 zero bytes for the identity), and the library parses it back to that point
+(uses the closure of the curve under the model's operations, `Proofs/Bn256ConcCurve.lean`, p prime) -/
+theorem emitted_signature_is_canonical_point (x : Nat) (msg : Bytes) :
+    ∃ S : G1, G1.valid S = true ∧ sign evalOps x msg = marshalG1 S ∧
+      (sign evalOps x msg).length = 64 ∧ unmarshalG1 (sign evalOps x msg) = .ok S := by
+  have hr : G1.Reachable (G1.smul x (G1.smul (keccakScalar msg) g1gen)) := .smul _ (.smul _ .base)
+  refine ⟨_, reachable_valid hr, rfl, marshalG1_length _, ?_⟩
+  have := unmarshalG1_marshalG1 _ (reachable_valid hr) []
+  simpa [sign, evalOps, hashToPoint] using this
 
 example : (emitCoord (2 ^ 256 - 1)).length = 32 ∧ beNat (emitCoord (2 ^ 256 - 1)) < p :=
   ⟨(emitted_coordinates_canonical _ (by decide)).1, (emitted_coordinates_canonical _ (by decide)).2.1⟩
